@@ -40,6 +40,9 @@ func RunHistory(w *tr.Writer, h History, hidx int, scratch, shared string) (hang
 				o.Ctrs = ctrs
 			}
 		}
+		if o.Op == "ColdDone" && !world.ColdStartArmed(o.C) {
+			continue // no timer armed by the policy: nothing would ever fire
+		}
 		line, err := world.Step(o, hidx, k)
 		w.Emit(line)
 		if err == ErrHang {
